@@ -351,7 +351,19 @@ func (o *c10Obs) After(w *wWorld, st *wStep) *kit.Viol {
 									}
 								}
 								if !got {
-									return kit.V("p2p-gone-notice-missing", "account of user %d was deleted while the P2P topic %s was in memory; session %d of the other participant (user %d), attached to 'me', was not told {pres what=gone src=%s}: it received %s", st.Op.U, name, sess, surv, w.users[st.Op.U].uid.UserId(), wFramesStr(st.Frames[sess]))
+									sig := "p2p-gone-notice-missing"
+									if me := o.preLive[w.users[surv].uid.UserId()]; me != nil && wSnapPerSubs {
+										if _, known := me.PerSubs[w.users[st.Op.U].uid.UserId()]; !known {
+											// the survivor's loaded 'me' topic does not hold the deleted account as a contact
+											// at all (it drops notices from sources it does not know): a different defect
+											sig += ":contact-unknown-to-me"
+										}
+									}
+									v := kit.V(sig, "account of user %d was deleted while the P2P topic %s was in memory; session %d of the other participant (user %d), attached to 'me', was not told {pres what=gone src=%s}: it received %s", st.Op.U, name, sess, surv, w.users[st.Op.U].uid.UserId(), wFramesStr(st.Frames[sess]))
+									if sig != "p2p-gone-notice-missing" && o.known != nil && o.known(v) {
+										continue
+									}
+									return v
 								}
 							}
 						}
